@@ -8,6 +8,8 @@ from rules.flowrules import select
 
 def run(ctx):
     F = ctx.F
+    from rules import deadrules as _dr
+    _dr.rule_parsed_fields_used(ctx, "R07.10", ("layout21raw::gds::",), 10)
     ctx.rule("R07.1e", "raw -> GDSII: every exported field derives from its raw counterpart (x/y and layer/datatype never crossed)")
     ctx.rule("R07.1i", "GDSII -> raw: every imported field derives from its GDSII counterpart")
     rg.run_tables(ctx, "R07.1e", "R07.1i")
